@@ -3,7 +3,9 @@ CONSTANTS
   Keeps = {99, 0, 1, 2, 3}
   Vals = {1, 2}
   Variant = "intended"
-  MaxAllocs = 7
+  MaxDepth = 2
+  Throws = {FALSE, TRUE}
+  MaxAllocs = 5
 SPECIFICATION Spec
 CONSTRAINT Bound
 INVARIANTS NeverHandsOutInUse CtorDtorBalanced ParkedSound ParkedBounded NoWildAccess
